@@ -679,7 +679,7 @@ def check_guess(ctx):
     def is_read(e):
         return isinstance(e, ast.Call) and isinstance(e.func, ast.Attribute) and e.func.attr == 'read' and u(e.func.value) == fobj
 
-    tbl, okr, reads = {}, True, set()
+    tbl, okr, reads, foreign = {}, True, set(), []
     for p in rets:
         nread = sum(1 for e in [x for ev in p.events for x in ev.exprs()] + [t for t, _ in p.conds] + [p.end[2]] for x in ast.walk(e) if is_read(x))
         facts = []
@@ -693,14 +693,23 @@ def check_guess(ctx):
                         rep.require(n is not _NOCONST and c is not _NOCONST, f'guess_compression: cannot evaluate the magic comparison {u(t)}')
                         fact = (n, c, isinstance(t.ops[0], ast.Eq) == pol)
                         reads.add(u(ra))
+            if fact is None and not any(is_read(x) or (isinstance(x, ast.Name) and is_read(p.resolve(x))) for x in ast.walk(t)):
+                # a test that does not look at the bytes read from the stream decides the result: the compression is then not
+                # recognised from the content (a located deviation, not an unknown construct)
+                foreign.append((u(t), pol, u(p.end[2])))
+                continue
             rep.require(fact is not None, f'guess_compression: the result depends on a test outside the vocabulary (only == / != between read(n) and a constant is interpreted): {u(t)}')
             facts.append(fact)
+        if len(facts) == 0 and foreign:
+            continue
         rep.require(len(facts) == 1, f'guess_compression: a returning path with {len(facts)} magic comparisons')
         n, c, eq = facts[0]
         okr = okr and nread == 1 and n == 2
         key = ('gzip-magic' if c == MAGIC and n == 2 else f'read({n}) == {c!r}') if eq else ('other' if c == MAGIC and n == 2 else f'read({n}) != {c!r}')
         tbl.setdefault(key, set()).add(u(p.end[2]))
     tbl = {k: sorted(v) for k, v in tbl.items()}
+    rep.add('F4', fg.site(), 'the compression is recognised from the content only: no test on the file name, a parameter or any other state decides the result', not foreign,
+            expected='every test on a returning path compares bytes read from the stream', found=sorted(set(foreign)) or 'content tests only', stmt='content only')
     rep.add('F4', fg.site(), "compression is recognised from the first two bytes: 1f 8b -> gzip, anything else -> none", okr and tbl == {'gzip-magic': ["'gzip'"], 'other': ["'none'"]}, expected="read(2) == b'\\x1f\\x8b' -> 'gzip' else 'none'",
             found=(tbl, sorted(reads)), stmt='gzip magic')
 
